@@ -238,7 +238,7 @@ class Obligations:
 
 # property -> further modules under Pk/Props whose theorems are obligations of that property as well
 EXTRA_PROPS = {
-    "C06": ["MgrReach", "C06Reach"], "C09": ["MgrReach", "C09Settles"], "C10": ["MgrReach"], "C13": ["MgrReach"], "C16": ["MgrReach"],
+    "C06": ["MgrReach", "C06ReachSpec", "C06Reach"], "C09": ["MgrReach", "C09Settles"], "C10": ["MgrReach"], "C13": ["MgrReach"], "C16": ["MgrReach", "C16Reach"], "C11": ["C11More"],
     "C15": ["C15Full"], "C01": ["C01Full"], "C07": ["C07Full"], "C14": ["C14Shift"], "C12": ["C12Idx"],
     "C05": ["C05Reasm"],
 }
@@ -403,6 +403,15 @@ class Report:
 
 
 def proof_coverage(ob, checker_cmd, extra_trusted=()):
+    # name the further obligation modules (EXTRA_PROPS) in the recorded command
+    mods = sorted({n.rsplit(".", 1)[0] for n in ob.names})
+    m = re.search(r"lake build (Pk\.Props\.\w+)", checker_cmd)
+    if m:
+        extra = [("Pk.Props." + x) for p, xs in EXTRA_PROPS.items() if "Pk.Props." + p == m.group(1) for x in xs
+                 if os.path.exists(os.path.join(LEAN, "Pk", "Props", x + ".lean"))]
+        if extra:
+            checker_cmd = checker_cmd.replace(m.group(0), m.group(0) + " " + " ".join(extra), 1)
+    del mods
     return {
         "obligations": len(ob.names),
         "discharged": len(ob.names) - len({n for n, _ in ob.failed}),
